@@ -119,14 +119,11 @@ class Decimal(SimpleModel):
 
         msl = kwargs.get('max_str_len', None)
         if msl is None:
-            total_digits = td
-            if total_digits is None:
-                total_digits = cls.Attributes.total_digits
-
-            # an unbounded number of digits says nothing about the length of
-            # the string: keep the inherited limit.
-            if total_digits != decimal.Decimal('inf'):
-                kwargs['max_str_len'] = total_digits + 2
+            # Only a total_digits requested *now* says something new about the
+            # length of the string. Otherwise the inherited limit stays -- be
+            # it the default, one derived earlier or one set explicitly.
+            if td is not None and td != decimal.Decimal('inf'):
+                kwargs['max_str_len'] = td + 2
                 # + 1 for decimal separator
                 # + 1 for negative sign
 
